@@ -369,6 +369,17 @@ func (c *fctx) stmt(s ast.Stmt, en *env, lc *lctx, next kont) string {
 		return rec(0, en)
 	case *ast.ReturnStmt:
 		c.checkOrder(s)
+		if len(x.Results) == 0 && len(c.fi.named) > 0 { // [BitsCode] bare return: the current values of the named results
+			var vs []string
+			for _, rv := range c.fi.named {
+				v := en.lookup(rv)
+				if v == nil {
+					t.fail(s, "bare return: named result %s is not in scope", rv.Name())
+				}
+				vs = append(vs, v.name)
+			}
+			return lc.ret(c.retTerm(en, vs))
+		}
 		if len(x.Results) == 1 && len(c.fi.results) > 1 {
 			call, ok := ast.Unparen(x.Results[0]).(*ast.CallExpr)
 			if !ok {
@@ -379,6 +390,8 @@ func (c *fctx) stmt(s ast.Stmt, en *env, lc *lctx, next kont) string {
 		if len(x.Results) != len(c.fi.results) {
 			t.fail(s, "return with %d values in a function with %d results", len(x.Results), len(c.fi.results))
 		}
+		c.inRet++ // [BitsCode] struct literals in a return operand may hold named slices
+		defer func() { c.inRet-- }()
 		for i, r := range x.Results { // [ext:T20] `return v, nil` in a function with an error result
 			if c.fi.results[i].k == kErr {
 				c.markNilAs20(r)
@@ -840,9 +853,15 @@ func (t *Translator) emitFunc(fi *funcInfo) string {
 	if strings.Contains(rt, " ") && !strings.HasPrefix(rt, "(") {
 		rt = "(" + rt + ")"
 	}
+	prefix := ""
+	for i, rv := range fi.named { // [BitsCode] named results are locals that start at their zero value
+		var name string
+		en, name = c.declare(en, rv, fi.results[i])
+		prefix += fmt.Sprintf("let %s := %s in\n", name, fi.results[i].zero())
+	}
 	lc := &lctx{ret: func(v string) string { return "Ret " + v }}
 	list, timed := t.bodyList(fi) // [seq] a timed tail becomes the parameter rest'timed
-	body := c.stmts(list, en, lc, kont{f: func(e *env) string {
+	body := prefix + c.stmts(list, en, lc, kont{f: func(e *env) string {
 		if timed {
 			return c.tailCall(e, rt)
 		}
